@@ -73,6 +73,13 @@ def qr_shortcut_rule(chk, src):
                   "(single left operator times several right operators, e.g. a one-site operator coupled to many sites): " + (bad[0] if bad else ""))
 
 
+def _perm_of_moveaxis(n, a, b):
+    order = list(range(n))
+    x = order.pop(a % n)
+    order.insert(b % n, x)
+    return order
+
+
 def run(chk):
     src = chk.src
     chk.explanation = (
@@ -89,7 +96,7 @@ def run(chk):
     chk.rule("algo-dispatch", "dispatch total over {qr, Hopcroft-Karp, Hungarian}; unknown -> assert False; defaults documented", 5)
     chk.rule("narrow-cast", "uint16 construction from a computed count is guarded by an assert against iinfo(uint16).max", 3)
     chk.rule("factor-dtype", "arrays receiving factor-derived values do not have a fixed real dtype", 2)
-    chk.rule("layout", "site tensor layout (left, row, column, right): builder permutation, dense readers, symbolic matrix indexing", 5)
+    chk.rule("layout", "site tensor layout (left, row, column, right): builder permutation and provenance of the local matrices (abstract run), dense readers, symbolic matrix indexing", 4)
     chk.rule("qr-shortcut-shape", "_decompose_qr: the branch that skips the QR factorisation is shape-consistent and guarded by `one column`", 2)
     qr_shortcut_rule(chk, src)
     chk.rule("split-order", "Op.split_elementary keeps intra-site symbol order, sites ascending; duplicates merged by summing factors", 4)
@@ -216,22 +223,84 @@ def run(chk):
     mi = [n for n in ast.walk(init.node) if isinstance(n, ast.Assign) and unparse(n.targets[0]) == "self.dtype"]
     chk.ob("factor-dtype", "Mpo.__init__: dtype of the operator = dtype of the factors", len(mi) == 1 and unparse(mi[0].value) == "factor.dtype", init.where, [unparse(x.value) for x in mi], "factor.dtype",
            line=init.node.lineno)
-    # ---- layout
+    # ---- layout: abstract run of the two builder functions on symbolic operands (two consecutive runs share module-level names)
+    from ..syminterp import SymInterp, Sym
+    from .tree_rules import _BasisSym, _OpMat, _MoSym, _Cell
     nm = src.func(SYM, "symbolic_mo_to_numeric_mo")
-    env = {"mo.ndim": 2}
-    for n in nm.node.body:
-        if isinstance(n, ast.Assign) and unparse(n.targets[0]) == "axes":
-            env["axes"] = small_eval(n.value, env)
-    shp = [unparse(n.value).replace(" ", "") for n in nm.node.body if isinstance(n, ast.Assign) and unparse(n.targets[0]) == "shape"]
-    chk.ob("layout", "builder: (in, out, row, col) -> (in, row, col, out)", env.get("axes") == [0, 2, 3, 1] and shp == ["list(mo.shape)+[pdim,pdim]"], nm.where, {"axes": env.get("axes"), "shape": shp},
-           {"axes": [0, 2, 3, 1]}, line=nm.node.lineno, detail="the numeric site tensor must be (left bond, row, column, right bond); another permutation transposes the operator or exchanges bonds")
-    ret = [unparse(r.value).replace(" ", "") for r in ast.walk(nm.node) if isinstance(r, ast.Return)]
-    chk.ob("layout", "builder returns the permuted tensor", ret == ["mo_mat.transpose(axes)"], nm.where, ret, "mo_mat.transpose(axes)")
+    it = SymInterp(src, None, {})
+    problems, got_axes = [], None
+    terms = [Sym(f"term{q}") for q in range(3)]
+    for run_ in (1, 2):
+        basis = _BasisSym(f"basis@run{run_}", "BasisSHO", "p")
+        mo = _MoSym([((0, 0), [terms[0], terms[1]]), ((1, 0), [terms[2]]), ((1, 1), [])], ndim=2, shape=("in", "out"))
+
+        class _Mat(Sym):
+            def __init__(self, shape):
+                super().__init__("mo_mat")
+                self.shape, self.cells = list(shape), {}
+
+            def __getitem__(self, i):
+                return _Cell(list(self.cells.get(i, [])))
+
+            def __setitem__(self, i, v):
+                self.cells[i] = v.items
+
+            def transpose(self, *axes):
+                ax = list(axes[0]) if len(axes) == 1 and isinstance(axes[0], (list, tuple)) else list(axes)
+                return ("transposed", self, ax)
+        made = []
+        it.builtins["np"] = Sym("np", zeros=lambda shape, dtype=None: made.append(_Mat(shape)) or made[-1], ndenumerate=lambda m: list(m.entries),
+                                moveaxis=lambda t, a_, b_: ("transposed", t, _perm_of_moveaxis(len(t.shape), a_, b_)))
+        res = it.call_function(nm, [basis, mo, "dtype"])
+        if not (isinstance(res, tuple) and res[0] == "transposed" and res[1] is made[-1]):
+            problems.append(f"run {run_}: the function does not return the permuted accumulation array")
+            continue
+        mat, ax = res[1], res[2]
+        got_axes = ax
+        if mat.shape != ["in", "out", "p", "p"] or ax != [0, 2, 3, 1]:
+            problems.append(f"run {run_}: array of shape {mat.shape} permuted by {ax}; expected (in, out, row, col) -> (in, row, col, out) = [0, 2, 3, 1]")
+        for idx, ts in mo.entries:
+            have = [(x.basis._name, x.symbol._name) if isinstance(x, _OpMat) else repr(x) for x in mat.cells.get(idx, [])]
+            want = [(basis._name, t._name) for t in ts]
+            if have != want:
+                problems.append(f"run {run_}: entry {idx} accumulates {have}, expected {want}")
+    chk.ob("layout", "builder: (in, out, row, col) -> (in, row, col, out), entries = sum of this basis set's op_mat(term)", not problems, nm.where, problems[:2] or {"axes": got_axes}, {"axes": [0, 2, 3, 1]},
+           line=nm.node.lineno, detail="the numeric site tensor must be (left bond, row, column, right bond) with entry [in][out] the sum of the local matrices of its terms for *this* basis set: " +
+                                     (problems[0] if problems else "") + " - another permutation transposes the operator or exchanges bonds")
     cs = src.func(SYM, "compose_symbolic_mo")
-    st_ = [norm_stmt(n, 80) for n in ast.walk(cs.node) if isinstance(n, ast.Expr) and "append" in unparse(n)]
-    inidx = [unparse(n.value).replace(" ", "") for n in ast.walk(cs.node) if isinstance(n, ast.Assign) and unparse(n.targets[0]) == "in_idx"]
-    chk.ob("layout", "symbolic site matrix indexed [incoming][outgoing]", st_ == ["mo[in_idx][iop].append(composed_op.factor * op)"] and inidx == ["composed_op.symbol[0]"], cs.where,
-           {"store": st_, "in_idx": inidx}, "mo[in_idx][iop].append(factor * op), in_idx = symbol[0]", line=cs.node.lineno)
+
+    class _Grid(Sym):
+        def __init__(self, shape):
+            super().__init__("grid")
+            self.shape = tuple(shape)
+            self.cells = {(i, j): None for i in range(shape[0]) for j in range(shape[1])}
+
+        def __getitem__(self, k):
+            if isinstance(k, tuple):
+                return self.cells[k]
+            return [self.cells[(k, j)] for j in range(self.shape[1])]
+
+        def __setitem__(self, k, v):
+            self.cells[k] = v
+
+    class _Fac(Sym):
+        def __mul__(self, o):
+            return (self._name, o)
+    it2 = SymInterp(src, None, {"np": Sym("np", full=lambda shape, fill, dtype=None: _Grid(shape), ndenumerate=lambda g: [(k, g.cells[k]) for k in sorted(g.cells)])})
+    prim = [f"prim{j}" for j in range(4)]
+    in_ops = ["in0", "in1", "in2"]
+    out_ops = [[Sym("c00", symbol=(0, 1), factor=_Fac("f00")), Sym("c01", symbol=(2, 3), factor=_Fac("f01"))], [Sym("c10", symbol=(1, 0), factor=_Fac("f10"))]]
+    try:
+        g = it2.call_function(cs, [in_ops, out_ops, prim])
+    except (KeyError, IndexError) as e:
+        g = Sym(f"{type(e).__name__}: {e} (an entry is addressed outside the [incoming][outgoing] grid)", cells={})
+    want = {(i, j): [] for i in range(3) for j in range(2)}
+    want[(0, 0)].append(("f00", "prim1"))
+    want[(2, 0)].append(("f01", "prim3"))
+    want[(1, 1)].append(("f10", "prim0"))
+    okg = isinstance(g, _Grid) and g.shape == (3, 2) and g.cells == want
+    chk.ob("layout", "symbolic site matrix indexed [incoming][outgoing], entry = factor * primary operator", okg, cs.where, {str(k): v for k, v in getattr(g, "cells", {}).items() if v},
+           {str(k): v for k, v in want.items() if v}, line=cs.node.lineno, detail="composed symbol = (incoming bond index, primary operator index); the entry of outgoing operator j goes to [symbol[0]][j]")
     for rel, qual, ranks in ((MPO, "Mpo.todense", (4, 4)), (MPS, "Mps.todense", (3, 3))):
         fi = src.func(rel, qual)
         loop = [n for n in ast.walk(fi.node) if isinstance(n, ast.For)]
